@@ -18,6 +18,7 @@ import (
 	"encoding/json"
 	"fmt"
 	"reflect"
+	"runtime/debug"
 	"sort"
 	"strings"
 
@@ -422,6 +423,7 @@ func (e *examiner) repr(r gens.Repr) {
 		gr = g.vals
 	}
 	var has, ff, loc0, walk, gn, fn evalRes
+	skipLocate := false
 	if o.wantsEval("Has") {
 		has = guard(c, func(res *evalRes) { res.flag = x.Has(r.Value) })
 	}
@@ -429,7 +431,14 @@ func (e *examiner) repr(r gens.Repr) {
 		ff = guard(c, func(res *evalRes) { res.one, res.flag = x.FirstFound(r.Value) })
 	}
 	if o.wantsEval("Locate") {
-		loc0 = guard(c, func(res *evalRes) { res.paths = x.Locate(r.Value, 0) })
+		if zeroStepLocateHangs && hasZeroStep(e.spec) && reflective(r.Name) {
+			// Locate does not return here on the current tree (reported once by
+			// hangProbe); the call cannot be made in-process.
+			c.Add("locate_calls_skipped_zero_step_slice_on_reflected_slice_does_not_terminate", 1)
+			skipLocate = true
+		} else {
+			loc0 = guard(c, func(res *evalRes) { res.paths = x.Locate(r.Value, 0) })
+		}
 	}
 	if o.wantsEval("Walk") {
 		walk = guard(c, func(res *evalRes) {
@@ -479,11 +488,12 @@ func (e *examiner) repr(r gens.Repr) {
 	if o.wantsEval("First") {
 		e.first("First", r.Name, ff, gr, true)
 		if ff.pv == nil {
+			// First is FirstFound without the flag; on map-order dependent
+			// cases the two calls may legitimately pick different members.
 			f1 := guard(c, func(res *evalRes) { res.one = x.First(r.Value) })
-			if f1.pv != nil {
-				e.panicked("First", r.Name, f1.pv)
-			} else if ff.flag && !same(f1.one, ff.one) || !ff.flag && f1.one != nil {
-				e.add("First", r.Name, "wrong-elements", "the value FirstFound returns: "+gens.Show(gens.Canon(ff.one)), gens.Show(gens.Canon(f1.one)))
+			f1.flag = f1.one != nil
+			if n := len(e.out); n == 0 || e.out[n-1].eval != "First" || e.out[n-1].repr != r.Name {
+				e.first("First", r.Name, f1, gr, true)
 			}
 		}
 	}
@@ -504,7 +514,7 @@ func (e *examiner) repr(r gens.Repr) {
 			e.add("GetNodes", r.Name, "order", "Get: "+showAll(gr), showAll(gn.vals))
 		}
 	}
-	if o.wantsEval("Locate") {
+	if o.wantsEval("Locate") && !skipLocate {
 		if loc0.pv != nil {
 			e.panicked("Locate", r.Name, loc0.pv)
 		} else {
@@ -653,6 +663,54 @@ func (e *examiner) locateMax(r gens.Repr, lower bool, all []string) {
 	}
 }
 
+// ------------------------------------------------------------------ non-termination probe
+
+// zeroStepLocateHangs is set by hangProbe when Locate on a slice or array
+// reached by reflection loops forever for a slice fragment with step 0 (the
+// reflection branch of Slice.locate lacks the step == 0 exit the other
+// branches have). Such a call cannot be made in-process, so the defect is
+// detected with a bounded max, reported, and the calls are skipped (counted).
+var zeroStepLocateHangs bool
+
+func hasZeroStep(spec gens.JPExpr) bool {
+	for _, f := range spec {
+		if f.K == "slice" {
+			if _, _, sp := gens.SliceParts(f); sp == 0 {
+				return true
+			}
+		}
+	}
+	return false
+}
+
+func reflective(repr string) bool {
+	switch gens.ReprFamily(repr) {
+	case "typed", "array", "pstruct":
+		return true
+	}
+	return false
+}
+
+// hangProbe calls Locate with max = 4 for $[1:0:0] on []int64{1,2,3}: a step
+// of 0 selects nothing, so any returned path shows the loop that never ends
+// when max is 0.
+func hangProbe(c *core.Ctx, reportIt bool) {
+	spec := gens.JPExpr{gens.JPSimple("root"), gens.JPSlice(1, 0, 0)}
+	data := []any{int64(1), int64(2), int64(3)}
+	res := guard(c, func(r *evalRes) { r.paths = spec.Build().Locate(gens.ToTyped(data), 4) })
+	if res.pv == nil && len(res.paths) == 0 {
+		return
+	}
+	zeroStepLocateHangs = true
+	if reportIt {
+		t := newTree(data)
+		cs := caseT{Path: spec, Text: spec.Build().String(), Data: t.encoded(), Repr: "typed", Eval: "Locate", Kind: "does-not-terminate"}
+		c.Fail(core.Sig("Locate", "slice", "reflect", "pos=last", gens.FragBound(spec[1], data), "does-not-terminate"), cs, 2000,
+			"no path (a step of 0 selects nothing; Get returns nothing)",
+			fmt.Sprintf("Locate(data, 4) returns %d paths %v (panic: %v); with max 0 the loop never ends", len(res.paths), res.paths, res.pv))
+	}
+}
+
 // ------------------------------------------------------------------ shrinking and classification
 
 var subtrees = map[string]*tree{}
@@ -716,7 +774,7 @@ func shrink(c *core.Ctx, spec gens.JPExpr, t *tree, f finding, depth int) (gens.
 
 func signature(spec gens.JPExpr, t *tree, f finding) string {
 	f1 := spec[1]
-	parts := []string{f.eval, gens.ReprFamily(f.repr), f1.K}
+	parts := []string{f.eval, f1.K, gens.ReprClass(f.repr)}
 	if len(spec) == 2 {
 		parts = append(parts, "pos=last", gens.FragBound(f1, t.simple))
 	} else {
@@ -726,11 +784,21 @@ func signature(spec gens.JPExpr, t *tree, f finding) string {
 }
 
 func report(c *core.Ctx, spec gens.JPExpr, t *tree, fs []finding) {
+	onSimple := map[string]bool{}
+	for _, f := range fs {
+		if f.repr == "simple" {
+			onSimple[f.eval+"|"+f.kind] = true
+		}
+	}
 	done := map[string]bool{}
 	for _, f := range fs {
-		key := f.eval + "|" + gens.ReprFamily(f.repr) + "|" + f.kind
+		if f.repr != "simple" && onSimple[f.eval+"|"+f.kind] {
+			c.Add("failures_on_other_representations_that_the_simple_form_shows_too", 1)
+			continue
+		}
+		key := f.eval + "|" + gens.ReprClass(f.repr) + "|" + f.kind
 		if done[key] {
-			continue // the other key orders of the same representation family
+			continue // another representation evaluated by the same code
 		}
 		done[key] = true
 		s, st, g, explained := shrink(c, spec, t, f, 0)
@@ -787,6 +855,10 @@ func run(c *core.Ctx) {
 	} else {
 		passes = []pass{{gens.Paths(true), 2, 1, gens.PathData(4)}, {gens.Paths(false), 3, 3, gens.PathData(3)}}
 	}
+	// ojg's evaluators allocate a 64-slot stack per call; the live heap is tiny,
+	// so collect rarely.
+	defer debug.SetGCPercent(debug.SetGCPercent(3200))
+	hangProbe(c, c.Shard == 0)
 	n := 0
 	for pi, p := range passes {
 		trees := make([]*tree, len(p.data))
@@ -844,6 +916,11 @@ func replay(c *core.Ctx, raw json.RawMessage) {
 	data, err := gens.DecodeTree(cs.Data)
 	if err != nil {
 		c.HarnessError("bad data: %v", err)
+		return
+	}
+	hangProbe(c, false)
+	if cs.Kind == "does-not-terminate" {
+		hangProbe(c, true)
 		return
 	}
 	t := newTree(data)
